@@ -91,6 +91,7 @@ names = st.one_of(
     st.text(min_size=40, max_size=120),
 )
 ids = st.one_of(
+    st.none(),  # random id chosen by the client itself
     st.sampled_from([0, 1, 2, 3, 2**31 - 2, 2**31 - 1, 2**31, 2**31 + 1, 2**32 - 1, 2**32, 2**32 + 1, -1, -2, 2**33 + 6, 1234]),
     st.integers(-(2**34), 2**34),
     st.integers(0, 2**31 - 1),
@@ -125,6 +126,13 @@ def identity_execute(case, stats):
         random.seed(case["rng"])
         cl = HttpBeaconClient()
         r = lib(cl.run, config(), allow=(ValueError,), what="HttpBeaconClient.run(dry_run=True)", **kw)
+        if bid is None:
+            check(not isinstance(r, Raised), "identity:random_id_rejected", f"run() without beacon_id raised {r!r}")
+            got = cl.beacon_id
+            check(isinstance(got, int) and got % 2 == 0 and 0 <= got < 2**31, "identity:id_range", f"self-chosen id {got}")
+            eq(int(cl.metadata.bid), got, "identity:metadata_bid", "metadata.bid")
+            stats.note(case, True, classes=["random_id"])
+            return
         if isinstance(r, Raised):
             # rejecting is fine for ids that do not normalise into range; an in-range id must be accepted
             even = bid - bid % 2
